@@ -41,6 +41,7 @@
 EXTENDS Sequences, Naturals, FiniteSets, TLC
 
 CONSTANTS
+  Mode,        \* "seq": option sequences up to MaxOpts over OptToks; "cfg": every configuration record, each through its canonical sequence
   OptToks,     \* the option alphabet (see Apply)
   MaxOpts,     \* bound on the length of the option sequence
   MinOpts,     \* a call is made only after at least this many options (0 for the exhaustive runs; > 0 steers -simulate to long sequences)
@@ -141,7 +142,37 @@ Call(o, f) ==
   /\ rule' = RuleEff(o, f, Cfg(opts))
   /\ UNCHANGED opts
 
-Next == (\E o \in OptToks : AddOpt(o)) \/ (\E o \in Ops, f \in {"md", "root"} : Call(o, f))
+\* Every configuration there is.  Default \in AllCfgs and Apply maps AllCfgs into itself (CfgSpaceClosed), so the
+\* configuration of an option sequence of ANY length lies in AllCfgs: what holds for every member of AllCfgs
+\* (EffAgreeEverywhere, and the replay of every member on the real entry points) holds for every sequence.
+AllCfgs == [encode : {"text", "json", "yaml", "toml"}, dry : BOOLEAN, exts : {"none", "e1", "e2"}, target : {"A", "B"},
+            strict : BOOLEAN, noiter : BOOLEAN, massive : {"no", "yes", "cancelled"}, brL : {"std", "L1", "L2"}, brI : {"std", "I1"}]
+AllToks == {"json", "yaml", "toml", "dry", "exts1", "exts2", "exts0", "targetB", "targetA", "strict", "noiter",
+            "massive", "mcancel", "brL1", "brL2", "brI1", "nil"}
+CfgSpaceClosed == Default \in AllCfgs /\ \A c \in AllCfgs, o \in AllToks : Apply(c, o) \in AllCfgs
+EffAgreeEverywhere == \A c \in AllCfgs, o \in Ops, f \in {"md", "root"} : CodeEff(o, f, c) = RuleEff(o, f, c)
+
+\* one option per field that differs from the default, in a fixed order
+CanonSeq(c) ==
+  (IF c.encode = "text" THEN <<>> ELSE <<c.encode>>)
+  \o (IF c.dry THEN <<"dry">> ELSE <<>>)
+  \o (IF c.exts = "e1" THEN <<"exts1">> ELSE IF c.exts = "e2" THEN <<"exts2">> ELSE <<>>)
+  \o (IF c.target = "B" THEN <<"targetB">> ELSE <<>>)
+  \o (IF c.strict THEN <<"strict">> ELSE <<>>)
+  \o (IF c.noiter THEN <<"noiter">> ELSE <<>>)
+  \o (IF c.massive = "yes" THEN <<"massive">> ELSE IF c.massive = "cancelled" THEN <<"mcancel">> ELSE <<>>)
+  \o (IF c.brL = "L1" THEN <<"brL1">> ELSE IF c.brL = "L2" THEN <<"brL2">> ELSE <<>>)
+  \o (IF c.brI = "I1" THEN <<"brI1">> ELSE <<>>)
+CanonSeqIsRight == \A c \in AllCfgs : Cfg(CanonSeq(c)) = c
+
+CallCfg(c, o, f) ==
+  /\ op = "none"
+  /\ opts' = CanonSeq(c) /\ op' = o /\ fam' = f
+  /\ code' = CodeEff(o, f, c)
+  /\ rule' = RuleEff(o, f, c)
+
+Next == IF Mode = "cfg" THEN \E c \in AllCfgs, o \in Ops, f \in {"md", "root"} : CallCfg(c, o, f)
+        ELSE (\E o \in OptToks : AddOpt(o)) \/ (\E o \in Ops, f \in {"md", "root"} : Call(o, f))
 Spec == Init /\ [][Next]_ovars
 
 ---------------------------------------------------------------------------
